@@ -215,6 +215,9 @@ func TestC04_MgrxNew(t *testing.T) {
 			_, created := after[chid]
 			opens := countKind(calls, "open", chid)
 			vcalls := totalValidatorCalls(r) - val0
+			if r.impostorCalls() > 0 {
+				mfail(t, log, "C04/refused-registration-consulted", "a validator whose registration was refused (the voucher type was already registered) was consulted %d time(s)", r.impostorCalls())
+			}
 			log = append(log, fmt.Sprintf("  -> created=%v opens=%d closes=%d pauses=%d replies=%d validatorCalls=%d retErr=%v", created, opens, countKind(calls, "close", chid), countKind(calls, "pause", chid), len(replies), vcalls, retErr))
 			// (i) non-interference
 			if !consulted && vcalls != 0 {
@@ -451,6 +454,9 @@ func TestC04_MgrxRestart(t *testing.T) {
 		calls := r.tr.Since(tr0)
 		replies := findReply(r, c.chid.ID, c.chid, sent0, tr0, returned)
 		vcalls := totalValidatorCalls(r) - val0
+		if r.impostorCalls() > 0 {
+			mfail(t, log, "C04/refused-registration-consulted", "a validator whose registration was refused (the voucher type was already registered) was consulted %d time(s)", r.impostorCalls())
+		}
 		log = append(log, fmt.Sprintf("  -> events=%v opens=%d closes=%d replies=%d validatorCalls=%d retErr=%v state=%s", codesOf(pubs), countKind(calls, "open", c.chid), countKind(calls, "close", c.chid), len(replies), vcalls, retErr, after.Short()))
 		if len(replies) != 1 {
 			mfail(t, log, "C04/reply-count", "%d replies for one restart request", len(replies))
